@@ -200,6 +200,8 @@ pub struct Sim {
     pub snapshot: Option<String>,
     pub pair_answer: Option<(bool, String)>,
     pub pair_done: bool,
+    /// C17 readers: how many further events run while the reader is parked
+    pub pair_span: u64,
     pub stop: bool,
     /// crash injection: unwind at this write boundary (1-based), see crash.rs
     pub writes_seen: u64,
@@ -227,6 +229,7 @@ impl Sim {
                 }
             };
         let record_writes = plan.flags.iter().any(|x| x == "record_writes");
+        let plan_span = plan.flags.iter().find_map(|x| x.strip_prefix("pair_span=").and_then(|v| v.parse::<u64>().ok())).unwrap_or(0);
         let mut world = World::new(plan.chain.clone());
         // initial main chain, timestamps end at T0
         world.mine_many(0, plan.initial_blocks, T0, 8_000);
@@ -283,6 +286,7 @@ impl Sim {
             snapshot: None,
             pair_answer: None,
             pair_done: false,
+            pair_span: plan_span,
             stop: false,
             writes_seen: 0,
             last_event_kind: String::new(),
@@ -856,6 +860,7 @@ impl Sim {
             4 => ("get_scripts", serde_json::json!([])),
             5 => ("get_cells_capacity", serde_json::json!([search(0)])),
             6 => ("get_cells", serde_json::json!([search(0), "asc", "0x64"])),
+            8 => ("get_transactions", serde_json::json!([search(0), "asc", "0x64"])),
             _ => ("set_scripts", serde_json::json!([[status(0, n2), status(1, 0)], "partial"])),
         };
         serde_json::json!({"jsonrpc": "2.0", "id": 1, "method": method, "params": params}).to_string()
@@ -882,6 +887,27 @@ impl Sim {
         }
     }
 
+    /// Runs the pair event and up to `extra` further events of the history (no oracles).
+    fn dispatch_span(&mut self, ev: Ev, extra: u64) {
+        self.dispatch(ev);
+        for _ in 0..extra {
+            if self.stop || self.client.is_none() {
+                break;
+            }
+            let item = match self.queue.pop() {
+                Some(i) => i,
+                None => break,
+            };
+            if item.at > self.plan.max_time {
+                break;
+            }
+            self.now = item.at;
+            set_faketime(abs_now(self.now));
+            self.events += 1;
+            self.dispatch(item.ev);
+        }
+    }
+
     fn run_pair_event(&mut self, ev: Ev) {
         let (_, write, mode, op) = self.pair.clone().unwrap();
         if self.client.is_none() {
@@ -901,6 +927,62 @@ impl Sim {
                 }
                 let r = self.run_pair_b_alone(op);
                 self.pair_answer = r.map(|r| (false, r));
+            }
+            "after_span" => {
+                self.dispatch_span(ev, self.pair_span);
+                if self.client.is_none() {
+                    return;
+                }
+                let r = self.run_pair_b_alone(op);
+                self.pair_answer = r.map(|r| (false, r));
+            }
+            "reader_mid" => {
+                // the reader is parked at one of its iteration points; the writer (this event)
+                // runs to completion; the reader resumes
+                let job = match self.pair_job(op) {
+                    Some(j) => j,
+                    None => return,
+                };
+                let park_at = 1 + write % 3;
+                let (erx, rtx, handle) = crate::runner::spawn_parked_reader(job, park_at);
+                let mut answer: Option<String> = None;
+                let mut parked = false;
+                match erx.recv_timeout(std::time::Duration::from_secs(20)) {
+                    Ok(crate::runner::ReaderEvent::Parked) => parked = true,
+                    Ok(crate::runner::ReaderEvent::Done(r)) => answer = Some(r),
+                    Err(_) => {
+                        self.harness_error = Some("reader neither parked nor finished".into());
+                        return;
+                    }
+                }
+                // a watchdog releases the reader if the writer cannot finish while it is parked
+                let (wtx, wrx) = std::sync::mpsc::channel::<()>();
+                let rtx2 = rtx.clone();
+                let stuck = std::sync::Arc::new(std::sync::atomic::AtomicBool::new(false));
+                let stuck2 = stuck.clone();
+                let watchdog = std::thread::spawn(move || {
+                    if wrx.recv_timeout(std::time::Duration::from_secs(15)).is_err() {
+                        stuck2.store(true, std::sync::atomic::Ordering::SeqCst);
+                        let _ = rtx2.send(());
+                    }
+                });
+                self.dispatch_span(ev, self.pair_span);
+                let _ = wtx.send(());
+                let _ = watchdog.join();
+                if stuck.load(std::sync::atomic::Ordering::SeqCst) {
+                    self.violate("C17", "deadlock", format!("{} could not finish while reader {} was parked inside its query", self.last_event_kind, op));
+                }
+                if parked {
+                    let _ = rtx.send(());
+                    match erx.recv_timeout(std::time::Duration::from_secs(20)) {
+                        Ok(crate::runner::ReaderEvent::Done(r)) => answer = Some(r),
+                        _ => {
+                            self.violate("C17", "deadlock", format!("reader {} never finished after {} returned", op, self.last_event_kind));
+                        }
+                    }
+                }
+                let _ = handle.join();
+                self.pair_answer = answer.map(|r| (parked, r));
             }
             _ => {
                 let job = match self.pair_job(op) {
